@@ -2,7 +2,7 @@
 import json, os, random
 from . import common, gen, oracles
 from .gen import wchoice
-from . import fals_basic, fals_models, fals_analyses
+from . import fals_basic, fals_models, fals_analyses, fals_poisson
 
 PROPS = {}
 
@@ -162,6 +162,26 @@ register(
     partial=["timer / polling-point: proved equal to naive evaluation over the STEP offsets of the own demand (scalar WCET); the all-offset claim is proved FALSE (counterexample_K2, known finding K2); the processing-chain analysis shares the scheme (correspondence + falsifier only)",
              "hypotheses as in C06: exact arrival models, limit >= 1, the end of a bw subchain releases something"],
     explanation="event source, rr and bw (incl. the debug cross-check) are proved equal to naive all-offset linear-scan evaluation for all supplies; service_time = linear-scan inverse; search = linear-scan least solution.",
+)
+
+
+register(
+    "C15",
+    level="proof",
+    streams=["poisson"],
+    falsifier=fals_poisson.falsify_C15,
+    partial=["the theorems are about the real-valued algorithm; the f64 implementation is tied to an IEEE-double model by bit-exact correspondence (translation validation) and compared with a 120-digit oracle; f64 rounding is outside the proof; finding F4: for means >= ~100 the f64 code returns wrong, non-monotone values and does not terminate when exp(-mean) underflows"],
+    explanation="real-valued accumulate-until-threshold loop: terminates for every mean >= 0 and epsilon > 0, returns the least n with P[N <= n] >= 1 - epsilon, zero at zero, monotone in the interval length (cdf antitone in the mean); pmf is the Poisson pmf (non-negative, sums to 1).",
+)
+
+
+register(
+    "C18",
+    level="proof",
+    streams=["fifo", "fp", "arrival"],
+    falsifier=fals_analyses.falsify_C18,
+    partial=["FIFO: proved (in EVERY legal FIFO schedule of the critical-instant job set some job has response time exactly the bound; a legal schedule exists; sporadic/periodic tasks are realisable). Fully preemptive and fully non-preemptive FP: stated (FpPreemptiveTight) and explored by simulation of the critical-instant schedule, not proved; auto-extrapolating curves: realisability not proved"],
+    explanation="tightness of the FIFO bound as a theorem over all legal schedules plus existence of a schedule (greedy scheduler construction); FP tightness by witness search.",
 )
 
 
